@@ -530,4 +530,16 @@ def pregen(ctx):
     if old != text:               # keep the mtime (and the compiled cone) when nothing changed
         with open(path, "w") as f:
             f.write(text)
+    # independent unit: Model._call (model.py) -> coq/gen/Gen_mcall.v (translator vlib/py2coq_mcall.py, vocabulary base/PyColl*.v + MCallPrelude.v).
+    # proofs/Gen_mcall_eq.v instantiates its `self._forward` with the generated forward pass of coq/gen/Gen_dispatch.v, so that file is
+    # re-translated here too (the C02 pregen; both writers produce the same text from the same tree) and proves the method equal to
+    # ModelSem.step / the one-step run_op.  Each writer leaves its own stub on rejection; the Node.run unit above does not depend on it.
+    try:
+        from vlib import py2coq_dispatch, py2coq_mcall
+        for unit in (py2coq_dispatch, py2coq_mcall):
+            e = unit.pregen()
+            if e:
+                errs.append(str(e))
+    except Exception:
+        errs.append("unit mcall (Model._call): pregen exception: " + traceback.format_exc()[-800:])
     return None if not errs else "; ".join(errs)
